@@ -54,6 +54,11 @@ def extra_checks(ft, tier, seed):
                     "what": "binary operators against a built-in set operand decide membership by item equality, not by key: " + r["witness"]})
     elif "error" in r:
         out.append({"name": "finding.builtin-set-operand", "status": "error", "detail": r["error"]})
+    r5 = harness.run_json("bounded/findings_r5.py", ["typed-set-result-dropped"])
+    if r5.get("reproduces"):
+        out.append({"name": "finding.typed-set-result-dropped", "status": "known", "kind": "known finding (open)", "what": r5["witness"]})
+    elif "error" in r5:
+        out.append({"name": "finding.typed-set-result-dropped", "status": "error", "detail": r5["error"]})
     return out
 
 
